@@ -29,8 +29,8 @@ class HarnessError(Exception):
 class Workdir:
     """generated design modules must be real files (cohdl uses inspect.getsource)"""
 
-    def __init__(self):
-        self.path = tempfile.mkdtemp(prefix="vfw_")
+    def __init__(self, parent=None):
+        self.path = tempfile.mkdtemp(prefix="vfw_", dir=parent)
         self.n = 0
 
     def load(self, source: str, stem="design"):
@@ -239,9 +239,8 @@ def _par_worker(i):
     st = _PAR["stats"]
     if st is None:
         st = _PAR["stats"] = Stats()
-        _PAR["wd"] = Workdir()
-        import atexit
-        atexit.register(_PAR["wd"].close)
+        # pool workers leave through os._exit (no atexit): their work directories live under a directory the parent removes
+        _PAR["wd"] = Workdir(parent=_PAR.get("scratch"))
     before = (st.queries, st.unsat, st.sat, st.unknown, st.solver_s, st.programs, st.accepted, st.rejected)
     h0 = set(st.hashes)
 
@@ -266,8 +265,18 @@ def parallel_programs(rep, n, fn, jobs=None, deadline=None):
     if os.environ.get("VERIF_JOBS"):
         jobs = int(os.environ["VERIF_JOBS"])
     _PAR["fn"] = fn
+    _PAR["scratch"] = scratch = tempfile.mkdtemp(prefix="vfw_par_")
     out = {}
     ctx = mp.get_context("fork")
+    try:
+        return _parallel_run(rep, n, jobs, deadline, ctx, out)
+    finally:
+        _PAR["fn"] = None
+        _PAR["scratch"] = None
+        shutil.rmtree(scratch, ignore_errors=True)
+
+
+def _parallel_run(rep, n, jobs, deadline, ctx, out):
     with ctx.Pool(jobs) as pool:
         it = pool.imap_unordered(_par_worker, range(n), chunksize=1)
         for i, res, d, hs in it:
@@ -279,5 +288,4 @@ def parallel_programs(rep, n, fn, jobs=None, deadline=None):
             if deadline is not None and time.time() > deadline:
                 pool.terminate()
                 break
-    _PAR["fn"] = None
     return out
